@@ -76,6 +76,31 @@ def strip_unit(chk, t, unit, anchor, where):
     return t
 
 
+def frame_bound(chk, prog):
+    from rules import c03
+    ev = sym.Evaluator(prog, opaque_local=[c03.T31, c03.STATUS, c03.VCP])
+    reader, mt = P("reader"), P("message_type")
+    got, fn = eval_or_blind(chk, ev, "VN", c03.DC, [reader, mt])
+    if got is None:
+        return
+    buf = ("repeat", C(0, "u8"), c03.FRAME - 28)
+    filled = ("mutated", "std::io::Read::read_exact", 1, (reader, buf))
+    calls = set()
+
+    def find(t):
+        if isinstance(t, tuple) and t:
+            if t[0] == "call" and t[1] == c03.VCP:
+                calls.add(t)
+            for x in (t if isinstance(t[0], tuple) else t[1:]):
+                if isinstance(x, tuple):
+                    find(x)
+    find(got)
+    okk = bool(calls) and all(c[2] == (filled,) for c in calls)
+    chk.ob("R-ORDER", c03.DC, okk, "the coverage-pattern decoder reads from the %d-byte frame buffer, so the frame bounds the cuts that can be read" % (c03.FRAME - 28) if okk else
+           "the coverage-pattern decoder is not confined to the frame body: it is given %s" % (", ".join(sorted(show(c[2][0])[:80] for c in calls)) or "nothing (never called)"),
+           fn.where(), key="vcp-reads-frame-buffer")
+
+
 def collected_form(chk, prog, fn):
     """the decoder without an explicit loop: header, then `number_of_elevation_cuts` blocks read in order by a collected
     iterator chain over 0..n, any failure returned as the error"""
@@ -165,6 +190,10 @@ def run(chk, tier):
                 # the vector pushed into is the one handed to Message::new together with the header
                 res = [leaf for conds, leaf in loops.paths(loops.entry_env(prog, fn, lp["head"])[1]) if isinstance(leaf, tuple) and leaf[0] != "@join"]
                 chk.ob("R-ERR", FN, all(x[0] == "adt" and x[2] == "Err" for x in res), "before the loop the only early return is the header's decode error", fn.where(), key="pre-loop-returns")
+
+    # ---- the decoder is run on the frame, not on the stream: a cut count that does not fit the 2404-byte frame body must
+    #      run out of bytes (an error), it must not be satisfied from the messages that follow
+    frame_bound(chk, prog)
 
     # ---- bit fields
     check_bits(chk, ev, H, HEADER_BITS, "header bit-field accessors")
